@@ -7,7 +7,7 @@ Driver for C13. Cases (see `harness/src/bin/sv_c13.rs`):
 * `code <dop>… | <cop>… ;; ok len=… n=… eoffs=… emits=… named=… data=<hex>` | `;; panic`
 * `base seed=… t=… d=<hex,…> offs=<o,…> len=<n> ;; at=<hex,…> observed=<hex,…>`
 * `patch seed=… t=… d=<hex,…> j=<j> new=<hex> ;; observed=<hex,…>`
-* `build seed=… t=… d=… ;; panic|error`
+* `build seed=… t=… d=… ;; panic|error` (prop=0: the compiler produced no program) / `built … ;; ok`
 
 `dop` = `I/<name|->/<pad>/<datum>` | `P/<hex>`; `pad` = `-`|`L<n>`|`R<n>`;
 `datum` = `b/<hex>` | `w/<hex>` | `a/<hex|->` | `s/<hex|->` | `c/<k>(/<pad>/<datum>){k}`;
@@ -223,9 +223,11 @@ def offsetsOk (len : Nat) : Nat → List (Nat × Nat) → Bool
   | lo, [] => lo ≤ len
   | lo, (o, l) :: r => lo ≤ o && o % 8 == 0 && o + l ≤ len && offsetsOk len (o + l) r
 
-/-- model's prediction: configurables are consecutive entries, each starting at the next word boundary -/
+/-- model's prediction: each configurable starts at a word boundary at or after the end of the previous one
+(not necessarily the NEXT boundary: the entry of an enum-typed configurable is sized for its largest variant,
+so it can be longer than the encoding of the compiled-in default) -/
 def consecutive : List (Nat × Nat) → Bool
-  | (o, l) :: (o', l') :: r => o' == roundUp8 (o + l) && consecutive ((o', l') :: r)
+  | (o, l) :: (o', l') :: r => o' ≥ roundUp8 (o + l) && o' % 8 == 0 && consecutive ((o', l') :: r)
   | _ => true
 
 def answerBase (c i : List String) : String :=
@@ -271,6 +273,7 @@ def answer (line : String) : String :=
   | "base" :: rest => answerBase rest i
   | "patch" :: rest => answerPatch rest i
   | "build" :: _ => s!"built agree=0 prop=0 kind=build outcome={(i.headD "?")}"
+  | "built" :: _ => "built agree=1 prop=1 kind=build outcome=ok"
   | _ => "bad-op agree=0 prop=0"
 
 def run : IO Unit := do
